@@ -252,9 +252,51 @@ def stage_falsifier(ctx, n):
     ctx.cov["distinct_nontrivial"] = ctx.cov.get("distinct_nontrivial", 0) + len(shapes)
 
 
+def replay_only(ctx, exe):
+    """bin/check C13 --replay <file>: re-runs exactly the stored failing input on the current tree"""
+    import json
+    from checks import c09
+    rep = json.load(open(ctx.replay)).get("replay", {})
+    ctx.cov["rule"] = "replay of " + os.path.basename(ctx.replay)
+    ctx.count("evaluations")
+    if rep.get("job"):
+        job = rep["job"]
+        eng = common.build_harness("config_engines", ["config/engines.c"], "rel")
+        rc, out, err = cl._run_proc(eng, [" ".join("%s=%s" % (k, v) for k, v in job.items() if k != "clip")], 600)
+        rc2, out2, _ = cl._run_proc(exe, ["qspec %d %d" % (job["recipe"], job["qflags"])], 60)
+        k = cl.kv([l for l in out2.splitlines() if l.startswith("< Q")][0])
+        p = float(job["prec"]) if "prec" in job else cl.b2d(k["prec"])
+        bad, how = judge(job, out.strip(), 16.0 if p == 0 else p, ROLLOFF_DB[int(k["flags"]) & 3]) if out.startswith("J ok") else ([("run", out + err[-300:])], "failed")
+        ctx.sample({"job": job, "result": out.strip()[:300]})
+        if bad:
+            ctx.violation("C13 replay still fails on the real code: %s" % bad[0][1], rep)
+        return
+    ops = rep.get("ops") or []
+    cfg = {}
+    for t in (ops[0].split()[1:] if ops else []):
+        kk, _, v = t.partition("=")
+        cfg[kk] = v if kk.startswith("E.") else int(v)
+    u = cl.Unit(ops, {"cfg": cfg})
+    c09.fill_qfields([u], exe)
+    cl.run_real(exe, [u], batch=1, timeout=60)
+    cl.run_model([u])
+    ctx.sample({"ops": ops[:6], "real": u.real[:6], "model": u.model[:6], "rc": u.rc})
+    d = cl.diff_unit(u)
+    r0 = u.real[0] if u.real else ""
+    want = expected_engine(u, u.model_in[0]) if r0.startswith("C ok") else None
+    if want and cl.kv(r0)["engine"] != want:
+        ctx.violation("C13 replay still fails on the real code: selected %s, the property demands %s" % (cl.kv(r0)["engine"], want), rep)
+    elif u.rc != 0 or d:
+        ctx.violation("C13 replay: correspondence still broken / abnormal end: rc=%s %s" % (u.rc, d), rep, no_input=True)
+
+
 def run(ctx):
     broken = common.proof_stage(ctx, ["SoxrModel.Properties.C13"], "C13", exes=("soxr_config",), gens=("Config",))
     exe = common.build_harness("config_probe", ["config/probe.c"], "dbg")
+    if getattr(ctx, "replay", None):
+        replay_only(ctx, exe)
+        cr.report_broken(ctx, broken, "replay only")
+        return
     stage_select(ctx, exe, 5000 if ctx.quick else 100000)
     stage_falsifier(ctx, 600 if ctx.quick else 20000)
     ctx.cov["rule"] = ("selection: generated soxr_create calls over recipes x flag words (VR, DOUBLE_PRECISION, HI_PREC_CLOCK, roll-offs, high bits) x precision "
